@@ -88,6 +88,11 @@ pub fn tag_block() -> impl Strategy<Value = Option<Vec<u8>>> {
     prop_oneof![
         6 => Just(None),
         2 => Just(Some(b"s:2573345,c:1696241893*00".to_vec())),
+        // a tag block whose own checksum is wrong, or consistent, or absent: the sentence's checksum is the
+        // only one the properties speak about
+        1 => Just(Some(b"s:r003669945,c:1241544035*FF".to_vec())),
+        1 => Just(Some(b"c:1241544035*53".to_vec())),
+        1 => Just(Some(b"g:1-2-73874,n:157036".to_vec())),
         1 => proptest::collection::vec(any::<u8>().prop_map(|b| if b == b'\\' || b == b'\n' { b'y' } else { b }), 1..30).prop_map(Some),
     ]
 }
@@ -95,6 +100,11 @@ pub fn tag_block() -> impl Strategy<Value = Option<Vec<u8>>> {
 pub fn tail() -> impl Strategy<Value = Vec<u8>> {
     prop_oneof![
         6 => Just(vec![]),
+        // what follows the checksum is ignored, stars and further sentences included
+        1 => Just(b" *".to_vec()),
+        1 => Just(b"\r*7F".to_vec()),
+        1 => Just(b"!AIVDM,1,1,,A,15,0*2A".to_vec()),
+        1 => Just(b" x*00*".to_vec()),
         2 => Just(b"\r".to_vec()),
         1 => Just(b"\r\n".to_vec()),
         1 => Just(b" ".to_vec()),
@@ -183,7 +193,9 @@ pub fn render_ev(e: &Ev) -> Line {
 }
 
 pub fn seq_id() -> impl Strategy<Value = Option<u8>> {
-    prop_oneof![2 => Just(None), 5 => (0u8..4).prop_map(Some), 2 => (0u8..=9).prop_map(Some), 1 => any::<u8>().prop_map(Some)]
+    // absent, the small ids real traffic uses, and the extremes of the field (0 and 255 are where an
+    // implementation that stores "no id" in-band would collide)
+    prop_oneof![3 => Just(None), 6 => (0u8..4).prop_map(Some), 2 => (0u8..=9).prop_map(Some), 2 => Just(Some(0)), 2 => Just(Some(255)), 1 => any::<u8>().prop_map(Some)]
 }
 
 /// short payload whose content identifies it (so that a delivered concatenation shows which
